@@ -40,12 +40,13 @@ type dryFrame struct {
 	nUnsupp   int
 	siteN     map[string]int
 	exitsLen  int
+	cacheLen  int
 }
 
 func (e *Enc) beginDry(fr *Frame) *dryFrame {
 	d := &dryFrame{declared: make(map[string]string, len(e.declared)), outLen: len(e.out), nfresh: e.nfresh,
 		strLits: make(map[string]string, len(e.strLits)), vals: map[ssa.Value]bool{}, writeLog: e.writeLog,
-		blockOut: map[int]*State{}, exitsLen: len(fr.exits)}
+		blockOut: map[int]*State{}, exitsLen: len(fr.exits), cacheLen: len(e.dryCache)}
 	for k, v := range e.declared {
 		d.declared[k] = v
 	}
@@ -70,6 +71,10 @@ func (e *Enc) endDry(fr *Frame, d *dryFrame) map[string]bool {
 	for k := range written {
 		e.writeLog[k] = true
 	}
+	for _, c := range e.dryCache[d.cacheLen:] {
+		delete(c.st.heap, c.key)
+	}
+	e.dryCache = e.dryCache[:d.cacheLen]
 	e.declared = d.declared
 	e.out = e.out[:d.outLen]
 	e.strLits = d.strLits
@@ -134,6 +139,10 @@ func (e *Enc) enterLoop(fr *Frame, li *loopInfo, st *State) *State {
 			h.heap[k] = e.fresh(k, e.heapSort[k])
 			e.writeLog[k] = true
 		}
+	}
+	if written["*"] {
+		// the body havocs everything (unknown callee): so does an arbitrary number of iterations
+		e.havocUnknown(h)
 	}
 	e.bumpAlloc(h)
 	for _, in := range li.header.Instrs {
